@@ -12,7 +12,7 @@ verus! {
 //@include prelude/paths.rs
 //@type RwLockWriteGuard<'_,Keyspaces> => KsWriteGuard
 //@guards keyspaces.write() keyspaces.read() param:keyspaces
-//@world .remove keyspaces.write keyspaces.read lock.get seqno_generator.next inner.ingestion ingestion.write ingestion.finish visible_seqno.fetch_max lock.remove keyspaces.insert self.maintenance shim_write_tombstones shim_name_row drop
+//@world .remove .next keyspaces.write keyspaces.read lock.get seqno_generator.next inner.ingestion ingestion.write ingestion.finish visible_seqno.fetch_max lock.remove keyspaces.insert self.maintenance shim_write_tombstones shim_name_row drop
 
 /// one row of the meta tree, as far as this unit looks: whose it is and whether it is a tombstone
 pub struct RowG { pub key: Seq<u8>, pub value: Seq<u8>, pub tomb: bool }
